@@ -101,6 +101,7 @@ func C14(ctx *Ctx) {
 		}
 		R.Count("render-cells", len(cells))
 		pure, length, order, branch, regs := aggMap{}, aggMap{}, aggMap{}, aggMap{}, aggMap{}
+		nFlagRender := 0
 		for _, o := range outs {
 			r := o.r
 			c := r.Cell
@@ -179,9 +180,42 @@ func C14(ctx *Ctx) {
 				stale["cpu.RXl"], stale["cpu.RYl"] = true, true
 			}
 			for _, e := range o.ev {
+				// a letter rendered under a test of exactly one flag field must be that flag's
+				// letter (however the test and the letter reach the renderer: helper, table, loop)
+				if len(e.Vals) == 1 {
+					if lv, ok := e.Vals[0].(*absint.Int); ok {
+						if ch, isC := lv.IsConst(); isC && ch >= 'A' && ch <= 'Z' {
+							flag := ""
+							for k, v := range e.Guards {
+								b := r.Conds[k]
+								if !v || b == nil || b.Cmp == nil {
+									continue
+								}
+								if x, ok := b.Cmp.X.(*absint.Int); ok && len(x.Lin.T) == 1 && x.Lin.C == 0 && strings.HasPrefix(x.Lin.T[0].A.Key, "cpu.") && len(x.Lin.T[0].A.Key) == 5 {
+									if flag != "" {
+										flag = "?"
+									} else {
+										flag = x.Lin.T[0].A.Key[4:]
+									}
+								}
+							}
+							if len(flag) == 1 && strings.Contains("NVMXDIZCEB", flag) {
+								nFlagRender++
+								if flag != string(rune(ch)) {
+									regs.add(fmt.Sprintf("%s:flag-letter-%s", rs, flag), c.Opcode, ctx.Prog.Pos(e.Pos), fmt.Sprintf("cell %s: under a test of flag %s the letter %q is rendered", c, flag, rune(ch)))
+								}
+							}
+						}
+					}
+				}
 				// operand rendering = events issued by the mode renderer, the function
 				// receiving (mode, w0, w1, w2, w3)
 				inRenderer := isModeRenderer(e.Caller)
+				for _, f := range e.Stack {
+					if isModeRenderer(f) {
+						inRenderer = true // rendered by a helper or closure the mode renderer calls
+					}
+				}
 				for _, v := range e.Vals {
 					iv, ok := v.(*absint.Int)
 					if !ok {
@@ -289,6 +323,7 @@ func C14(ctx *Ctx) {
 		emitAgg(R, "operand-order", order, rs, "operand bytes rendered most significant first for every addressing mode")
 		emitAgg(R, "branch-target", branch, rs, "rel8/rel16 destinations equal Step's target")
 		emitAgg(R, "registers", regs, rs+":copies", "only authoritative register copies are rendered")
+		R.Count("flag-letter-sites", nFlagRender/64) // per-cell renderings, scaled to the order of source sites
 	}
 	checkFlagLetters(ctx)
 	checkLoggerRegion(ctx)
